@@ -55,6 +55,10 @@ class StepBudget:
         mon.free_tool_id(self.TOOL)
         self.active = False
 
+    def credit(self, steps: int) -> None:
+        """Allow ``steps`` more (work that is proportional to output)."""
+        self.count -= steps
+
     def reset(self) -> int:
         n = self.count
         if n > self.max_seen:
